@@ -265,7 +265,13 @@ type play struct {
 	Keep, Clear, NoPlot, Quiet, Upload bool
 	BlankDir                          bool // upload play whose output directory contains a blank
 	Fouled                            bool
-	FoulKind                          string // "audit" | "action" (in the last, repeated act) | "early" (a failing action in act 1)
+	FoulKind                          string // "audit" | "action" (in the last, repeated act) | "early" (a failing action in act 1) | "signal"
+	// Signal: the play is cut short by this signal ("INT", "TERM", "HUP")
+	// sent to the shakespeare process while an action runs.
+	Signal string
+	// Gnuplot: what $GNUPLOT points at: "none" (nothing there), "ok" (a
+	// program that exits 0), "fail" (one that exits 1).
+	Gnuplot string
 	// Prior: an earlier run into the same output directory, one second
 	// before: "" none, "cleared" (clean play with --clear: its run directory
 	// is gone, `latest` dangles), "deleted" (the user removed its run
@@ -311,6 +317,9 @@ func (p *play) config() string {
 	if p.Fouled && (p.FoulKind == "action" || p.FoulKind == "early") {
 		sb.WriteString("  :bad echo failing >&2; false\n")
 	}
+	if p.Signal != "" {
+		sb.WriteString("  :hang touch started.marker; sleep 30\n")
+	}
 	sb.WriteString("  spotlight echo \"" + p.MaxT + " val 7\"; ")
 	if p.PastSecs > 0 {
 		sb.WriteString("echo \"$(date -u -d '-" + strconv.Itoa(p.PastSecs) + " seconds' +%Y-%m-%dT%H:%M:%S.%3NZ) old 1\"; ")
@@ -326,6 +335,8 @@ func (p *play) config() string {
 	}
 	if p.Fouled && p.FoulKind == "action" {
 		sb.WriteString("  scene b entails for alice: mk; bad\n")
+	} else if p.Signal != "" {
+		sb.WriteString("  scene b entails for alice: mk; hang\n")
 	} else {
 		sb.WriteString("  scene b entails for alice: mk\n")
 	}
@@ -402,6 +413,8 @@ func (p *play) run(bin, root string) {
 		must(os.MkdirAll(d, 0755))
 	}
 	must(ioutil.WriteFile(filepath.Join(fake, "scp"), []byte("#!/bin/sh\necho fake scp \"$@\"\nexit 0\n"), 0755))
+	must(ioutil.WriteFile(filepath.Join(fake, "gnuplot-ok"), []byte("#!/bin/sh\necho plotted \"$@\"\nexit 0\n"), 0755))
+	must(ioutil.WriteFile(filepath.Join(fake, "gnuplot-fail"), []byte("#!/bin/sh\necho cannot plot \"$@\" >&2\nexit 1\n"), 0755))
 	p.Cwd = cwd
 	p.Cfg = p.config()
 	must(ioutil.WriteFile(filepath.Join(cwd, "play.cfg"), []byte(p.Cfg), 0644))
@@ -444,6 +457,12 @@ func (p *play) run(bin, root string) {
 	args = append(args, "play.cfg")
 	p.Args = args
 	env := []string{"PATH=" + fake + ":/usr/bin:/bin", "HOME=" + home, "TMPDIR=" + tmp, "SHELL=/bin/bash", "LANG=C"}
+	switch p.Gnuplot {
+	case "ok", "fail":
+		env = append(env, "GNUPLOT="+filepath.Join(fake, "gnuplot-"+p.Gnuplot))
+	default:
+		env = append(env, "GNUPLOT="+filepath.Join(fake, "no-such-gnuplot"))
+	}
 	if p.Prior != "" {
 		// an earlier, clean run into the same output directory
 		q := *p
@@ -485,6 +504,18 @@ func (p *play) run(bin, root string) {
 	must(cm.Start())
 	done := make(chan error, 1)
 	go func() { done <- cm.Wait() }()
+	if p.Signal != "" {
+		// wait until the action runs (it creates a marker), then signal
+		deadline := time.Now().Add(20 * time.Second)
+		for time.Now().Before(deadline) {
+			if m, _ := filepath.Glob(filepath.Join(p.AbsOut, "*", "artifacts", "alice", "started.marker")); len(m) > 0 {
+				break
+			}
+			time.Sleep(10 * time.Millisecond)
+		}
+		sig := map[string]syscall.Signal{"INT": syscall.SIGINT, "TERM": syscall.SIGTERM, "HUP": syscall.SIGHUP}[p.Signal]
+		cm.Process.Signal(sig)
+	}
 	select {
 	case err := <-done:
 		if err != nil {
@@ -620,6 +651,14 @@ func (p *play) inspect(runDir string) {
 		rel, _ := filepath.Rel(runDir, path)
 		if rel == "index.html" || rel == "upload.log" {
 			return nil // written after the tree is collected
+		}
+		base := filepath.Base(rel)
+		if (strings.HasPrefix(base, "#") && strings.HasSuffix(base, "#")) || strings.HasSuffix(base, "~") ||
+			(!info.Mode().IsRegular() && info.Mode()&os.ModeType != os.ModeSymlink) {
+			// editor temporaries and fifos are never named; they are still
+			// there when the play was interrupted (no upload step, so
+			// removeNonUploadableFiles does not run)
+			return nil
 		}
 		if !named[rel] {
 			p.SurvivorsNamed = false
@@ -911,13 +950,41 @@ func main() {
 		early = append(early, p)
 		plays = append(plays, p)
 	}
+	// plays cut short by a signal while an action runs
+	var signalled []*play
+	sigs := []string{"INT", "TERM", "HUP"}
+	nSig := 3
+	if thorough {
+		nSig = 12
+	}
+	for i := 0; i < nSig; i++ {
+		p := &play{Fouled: true, Signal: sigs[i%3], DirKind: (i + int(*seed)) % 4, Keep: i%4 == 3, Clear: i%2 == 1, Quiet: true,
+			NoPlot: i%3 == 2, Repeat: i%2 == 0}
+		signalled = append(signalled, p)
+		plays = append(plays, p)
+	}
+	// a gnuplot that works, one that fails: neither changes how a play ends
+	nGp := 4
+	if thorough {
+		nGp = 16
+	}
+	for i := 0; i < nGp; i++ {
+		plays = append(plays, &play{Gnuplot: []string{"fail", "ok"}[i%2], Fouled: i%4 >= 2 && i%8 != 2, Clear: i%8 < 4 && i%2 == 0, Keep: i%8 == 5,
+			DirKind: (i + int(*seed)) % 4, Quiet: true, Repeat: i%3 == 0})
+	}
 	for _, p := range plays {
+		if p.Gnuplot == "" {
+			p.Gnuplot = []string{"none", "none", "ok", "fail"}[rng.Intn(4)]
+		}
 		p.FoulKind = []string{"audit", "action", "early"}[rng.Intn(3)]
 		p.MaxT = []string{"0.5", "2.25", "3.25", "4.75", "6.0"}[rng.Intn(5)]
 		p.PastSecs = rng.Intn(4)
 	}
 	for _, p := range early {
 		p.FoulKind = "early"
+	}
+	for _, p := range signalled {
+		p.FoulKind = "signal"
 	}
 	var wg sync.WaitGroup
 	sem := make(chan struct{}, 10)
@@ -1007,13 +1074,16 @@ func main() {
 		if p.Prior != "" {
 			dist["after_an_earlier_run_"+p.Prior]++
 		}
+		if !p.NoPlot {
+			dist["gnuplot_"+p.Gnuplot]++
+		}
 		if p.Repeat && p.Fouled && p.FoulKind == "early" {
 			dist["repeat_section_never_reached"]++
 		}
 		if p.PastSecs > 0 {
 			dist["negative_instants"]++
 		}
-		nontriv[fmt.Sprintf("play %v %v %v %v %v %v %v %d %s %s", p.Keep, p.Clear, p.NoPlot, p.Quiet, p.Upload, p.Fouled, p.Repeat, p.DirKind, p.Prior, p.FoulKind)] = true
+		nontriv[fmt.Sprintf("play %v %v %v %v %v %v %v %d %s %s", p.Keep, p.Clear, p.NoPlot, p.Quiet, p.Upload, p.Fouled, p.Repeat, p.DirKind, p.Prior, p.FoulKind+p.Gnuplot)] = true
 	}
 	for _, c := range links {
 		nontriv["link "+c.DataDir[strings.LastIndex(c.DataDir, "/l")+1:]+" "+c.Sub] = true
